@@ -623,6 +623,30 @@ func (fc *FnCtx) execMakeSlice(fr *Frame, st *State, x *ssa.MakeSlice) Val {
 	// elements are zero-initialised
 	hn := elemHeapName(es)
 	h := fc.heapRaw(st, hn, arrSort(SInt, arrSort(SInt, es)))
+	if sn, isS := isStructVal(x.Type().Underlying().(*types.Slice).Elem()); isS && namedPath(x.Type().Underlying().(*types.Slice).Elem()) != "time.Time" {
+		// a slice of struct VALUES: every slot is its own (zeroed) object. Slot k is the reference base+1+k;
+		// the allocation pointer moves past all cap slots.
+		base := fc.allocTop(st)
+		top := fc.fresh("allocTop", SInt)
+		fc.assume(st, tEq(top, tAdd(tAdd(base, cp), intLit(1))))
+		st.cells[keyAlloc] = top
+		row := fc.fresh("slots", arrSort(SInt, SInt))
+		fc.assume(st, T(SBool, fmt.Sprintf("(forall ((k Int)) (! (= (select %s k) (+ %s 1 k)) :pattern ((select %s k))))", row.S, base.S, row.S)))
+		fc.setHeap(st, hn, tStore(h, arr, row))
+		// zero-initialised fields of the fresh objects (heaps are unconstrained above the old allocation
+		// pointer, so this only fixes what was arbitrary)
+		for i := 0; i < sn.Underlying().(*types.Struct).NumFields(); i++ {
+			f := sn.Underlying().(*types.Struct).Field(i)
+			fs := sortOf(f.Type())
+			zf, ok := fc.zeroValue(st, f.Type()).(Term)
+			if !ok || zf.Sort != fs {
+				continue
+			}
+			fh := fc.heap(st, structHeapName(sn, f.Name()), fs)
+			fc.assume(st, T(SBool, fmt.Sprintf("(forall ((r Int)) (! (=> (and (< %s r) (< r %s)) (= (select %s r) %s)) :pattern ((select %s r))))", base.S, top.S, fh.S, zf.S, fh.S)))
+		}
+		return fc.nameTerm("mk", mkSlice(arr, intLit(0), ln, cp))
+	}
 	zv, ok := fc.zeroValue(st, x.Type().Underlying().(*types.Slice).Elem()).(Term)
 	if ok && zv.Sort == es {
 		fc.setHeap(st, hn, tStore(h, arr, T(arrSort(SInt, es), fmt.Sprintf("((as const %s) %s)", arrSort(SInt, es), zv.S))))
